@@ -58,6 +58,12 @@ UNITS += [Unit('jd_pobj', 'wrappers/jd.cpp', defs=CONT, cuts={'CUT_PV_ALL': r'12
 OBS.append(Ob(['C01', 'C15', 'C10', 'C03', 'C05', 'C16'], 'parse_object_step', 'jd_pobj', 'harness/jd_cont.c', 'h_parse_object', defs=['UNIT_H="jd_pobj.h"', 'NB=3'], unwind=6, fs='none', cap=400, hunwind=12,
     desc='parseObject<AllowAll> one activation (key scanner, member lookup/creation, clear and values cut): token discipline, limit, repeated key parsed into the existing member after exactly one clear, new key saved+added once, NoMemory on a failed member slot',
     bound="'{' + all continuations of 3 bytes, all limits, every key / lookup / allocation / value behaviour allowed by the contracts"))
+UNITS += [Unit('jd_fcont', 'wrappers/jd.cpp', defs=CONT + ['ARENA_N=4'], cuts={'CUT_PV_ALL': r'12parseVariantINS1_14AllowAllFilterE', 'CUT_PV_FILTER': r'12parseVariantINS0_21DeserializationOption6FilterE', 'CUT_SV': r'11skipVariantE',
+    'CUT_ADD_ELEMENT': r'9ArrayData10addElementEPNS1_15ResourceManagerE$'})]
+for fs_, nm in [(0, 'true'), (1, 'false'), (2, '[true]'), (3, '[false]'), (4, '[]'), (5, '{}')]:
+    OBS.append(Ob(['C11', 'C15', 'C03'], 'parse_array_filter_%d' % fs_, 'jd_fcont', 'harness/jd_cont.c', 'h_parse_array_filter', defs=['UNIT_H="jd_fcont.h"', 'NB=3', 'FSHAPE=%d' % fs_], unwind=6, fs='none', cap=400, hunwind=12,
+        desc='array input under the filter %s (children cut): array created iff admitted, each element parsed iff the element filter allows it else skipped, slots only for kept elements, same token discipline / limit / codes as the reference' % nm,
+        bound="'[' + all continuations of 3 bytes, all limits, every child behaviour allowed by the contract"))
 # other input kinds (C03: the result depends on the bytes, not on the reader): the same harnesses on the library's own
 # zero-terminated Reader<const char*> (READER=1, buffer exactly sized up to its terminator) and BoundedReader (READER=2)
 for rd, nm in [(1, 'zt'), (2, 'bounded')]:
